@@ -187,6 +187,126 @@ fn degree(_tier: &str) {
         samples.join(","), viol.join(","));
 }
 
+
+// ---------------------------------------------------------------------------------------------
+// degree_expr: Expression::propagate_degrees on small expression trees (C07 stage 2, BOUNDED stand-in).
+// truth: the real polynomial degree class of each variable (0..3); env: a sound degree environment (an entry, when
+// present, has an upper end >= truth). sem: compositional least sound bound (DESIGN.md §5 C07 stage 2).
+
+#[derive(Clone)]
+struct Var { name: &'static str, truth: i32 }
+
+fn sem(e: &Expression, truth: &dyn Fn(&VariableName) -> i32) -> i32 {
+    use Expression::*;
+    match e {
+        InfixOp { lhe, infix_op, rhe, .. } => ls_infix(*infix_op, sem(lhe, truth), sem(rhe, truth)),
+        PrefixOp { prefix_op, rhe, .. } => ls_prefix(*prefix_op, sem(rhe, truth)),
+        SwitchOp { cond, if_true, if_false, .. } => if sem(cond, truth) == 0 { sem(if_true, truth).max(sem(if_false, truth)) } else { 3 },
+        Variable { name, .. } => truth(name),
+        Number(..) => 0,
+        Call { args, .. } => if args.iter().all(|a| sem(a, truth) == 0) { 0 } else { 3 },
+        InlineArray { values, .. } => values.iter().map(|v| sem(v, truth)).max().unwrap_or(0),
+        Access { var, .. } => truth(var),
+        Update { var, rhe, .. } => truth(var).max(sem(rhe, truth)),
+        Phi { args, .. } => args.iter().map(|a| truth(a)).max().unwrap_or(0),
+    }
+}
+
+fn kind(e: &Expression) -> &'static str {
+    use Expression::*;
+    match e { InfixOp { .. } => "InfixOp", PrefixOp { .. } => "PrefixOp", SwitchOp { .. } => "SwitchOp", Variable { .. } => "Variable", Number(..) => "Number",
+        Call { .. } => "Call", InlineArray { .. } => "InlineArray", Access { .. } => "Access", Update { .. } => "Update", Phi { .. } => "Phi" }
+}
+
+fn children(e: &Expression) -> Vec<&Expression> {
+    use Expression::*;
+    match e {
+        InfixOp { lhe, rhe, .. } => vec![lhe, rhe],
+        PrefixOp { rhe, .. } => vec![rhe],
+        SwitchOp { cond, if_true, if_false, .. } => vec![cond, if_true, if_false],
+        Call { args, .. } => args.iter().collect(),
+        InlineArray { values, .. } => values.iter().collect(),
+        Access { access, .. } => access.iter().filter_map(|a| if let AccessType::ArrayAccess(i) = a { Some(&**i) } else { None }).collect(),
+        Update { access, rhe, .. } => { let mut v: Vec<&Expression> = access.iter().filter_map(|a| if let AccessType::ArrayAccess(i) = a { Some(&**i) } else { None }).collect(); v.push(rhe); v }
+        _ => vec![],
+    }
+}
+
+/// the smallest subexpression whose recorded upper bound is below its least sound bound
+fn first_unsound<'a>(e: &'a Expression, truth: &dyn Fn(&VariableName) -> i32) -> Option<&'a Expression> {
+    for c in children(e) { if let Some(b) = first_unsound(c, truth) { return Some(b); } }
+    if let Some(r) = e.degree() { if rank(r.end()) < sem(e, truth) { return Some(e); } }
+    None
+}
+
+fn degree_expr(tier: &str) {
+    use Expression::*;
+    let m = || Meta::default();
+    let va = VariableName::from_string("a");
+    let vb = VariableName::from_string("b");
+    let leaves = |_: ()| -> Vec<Expression> { vec![Number(m(), BigInt::from(5)), Variable { meta: m(), name: va.clone() }, Variable { meta: m(), name: vb.clone() }] };
+    let ops = [ExpressionInfixOpcode::Add, ExpressionInfixOpcode::Mul, ExpressionInfixOpcode::Div, ExpressionInfixOpcode::Lesser];
+    let mut d1: Vec<Expression> = vec![];
+    for l in leaves(()) { for r in leaves(()) { for op in ops { d1.push(InfixOp { meta: m(), lhe: Box::new(l.clone()), infix_op: op, rhe: Box::new(r.clone()) }); } } }
+    for l in leaves(()) { for op in [ExpressionPrefixOpcode::Sub, ExpressionPrefixOpcode::Complement, ExpressionPrefixOpcode::BoolNot] { d1.push(PrefixOp { meta: m(), prefix_op: op, rhe: Box::new(l.clone()) }); } }
+    for c in leaves(()) { for t in leaves(()) { for f in leaves(()) { d1.push(SwitchOp { meta: m(), cond: Box::new(c.clone()), if_true: Box::new(t.clone()), if_false: Box::new(f.clone()) }); } } }
+    d1.push(Call { meta: m(), name: "f".into(), args: vec![] });
+    for l in leaves(()) { for r in leaves(()) { d1.push(Call { meta: m(), name: "f".into(), args: vec![l.clone(), r.clone()] }); d1.push(InlineArray { meta: m(), values: vec![l.clone(), r.clone()] }); } }
+    for v in [&va, &vb] { for i in leaves(()) {
+        d1.push(Access { meta: m(), var: v.clone(), access: vec![AccessType::ArrayAccess(Box::new(i.clone()))] });
+        for r in leaves(()) { d1.push(Update { meta: m(), var: v.clone(), access: vec![AccessType::ArrayAccess(Box::new(i.clone()))], rhe: Box::new(r.clone()) }); }
+    } }
+    d1.push(Phi { meta: m(), args: vec![va.clone()] });
+    d1.push(Phi { meta: m(), args: vec![vb.clone()] });
+    d1.push(Phi { meta: m(), args: vec![va.clone(), vb.clone()] });
+    let mut shapes: Vec<Expression> = leaves(());
+    shapes.extend(d1.iter().cloned());
+    let wrap_all = tier == "thorough";
+    for (k, d) in d1.iter().enumerate() {
+        if !wrap_all && k % 3 != 0 { continue; }
+        for l in leaves(()) {
+            shapes.push(InfixOp { meta: m(), lhe: Box::new(d.clone()), infix_op: ExpressionInfixOpcode::Mul, rhe: Box::new(l.clone()) });
+            shapes.push(Update { meta: m(), var: va.clone(), access: vec![AccessType::ArrayAccess(Box::new(Number(m(), BigInt::from(0))))], rhe: Box::new(d.clone()) });
+            shapes.push(SwitchOp { meta: m(), cond: Box::new(d.clone()), if_true: Box::new(l.clone()), if_false: Box::new(Number(m(), BigInt::from(1))) });
+            shapes.push(InlineArray { meta: m(), values: vec![d.clone(), l.clone()] });
+        }
+    }
+    let mut evals = 0u64; let mut nontrivial = 0u64;
+    let mut viol: Vec<String> = vec![]; let mut seen_ob: std::collections::BTreeSet<String> = Default::default();
+    let mut samples: Vec<String> = vec![];
+    // environments: truth x {absent, exact, loose}
+    let envopts = |t: i32| -> Vec<Option<DegreeRange>> { vec![None, Some(DegreeRange::new(Degree::Constant, DEGS[t as usize])), Some(DegreeRange::new(Degree::Constant, Degree::NonQuadratic))] };
+    for ta in 0..4 { for ea in envopts(ta) { for tb in 0..4 { for eb in envopts(tb) {
+        let mut env = DegreeEnvironment::new();
+        if let Some(r) = &ea { env.set_degree(&va, r); }
+        if let Some(r) = &eb { env.set_degree(&vb, r); }
+        let truth = |n: &VariableName| -> i32 { if *n == va { ta } else { tb } };
+        for sh in &shapes {
+            let mut e = sh.clone();
+            let r = catch_unwind(AssertUnwindSafe(|| { for _ in 0..6 { if !e.propagate_degrees(&env) { break; } } e }));
+            evals += 1;
+            let e = match r { Ok(e) => e, Err(_) => { if viol.len() < 20 { viol.push(format!("{{\"unit\":\"degree_expr\",\"fn\":\"Expression::propagate_degrees\",\"obligation\":\"degree_expr|Expression::propagate_degrees|bounded|panic\",\"what\":{},\"replay\":\"replay_ps bounded degree_expr\"}}", jstr(&format!("propagate_degrees panicked on {:?}", sh)))); } continue; } };
+            if e.degree().is_some() { nontrivial += 1; }
+            if evals % 30011 == 1 && samples.len() < 8 { samples.push(format!("{{\"expr\":{},\"truth\":[{},{}],\"claimed\":{},\"least_sound_rank\":{}}}", jstr(&format!("{:?}", e)), ta, tb, jstr(&format!("{:?}", e.degree())), sem(&e, &truth))); }
+            if let Some(bad) = first_unsound(&e, &truth) {
+                let mut arm = kind(bad).to_string();
+                if let Update { var, .. } = bad { if env.degree(var).is_none() { arm = "Update-first-write".into(); } }
+                let ob = format!("degree_expr|Expression::propagate_degrees|bounded|{}", arm);
+                if seen_ob.insert(ob.clone()) {
+                    viol.push(format!("{{\"unit\":\"degree_expr\",\"fn\":\"Expression::propagate_degrees\",\"obligation\":{},\"input\":{{\"expr\":{},\"deg_a\":{},\"env_a\":{},\"deg_b\":{},\"env_b\":{}}},\"what\":{},\"replay\":\"replay_ps bounded degree_expr\"}}",
+                        jstr(&ob), jstr(&format!("{:?}", sh)), ta, jstr(&format!("{:?}", ea)), tb, jstr(&format!("{:?}", eb)),
+                        jstr(&format!("`{:?}` with deg a = {}, deg b = {}, env a = {:?}, env b = {:?}: the {} node `{:?}` is annotated {:?} but its least sound bound has rank {}", sh, ta, tb, ea, eb, kind(bad), bad, bad.degree(), sem(bad, &truth)))));
+                }
+            }
+        }
+    } } } }
+    println!("{{\"unit\":\"degree_expr\",\"evaluations\":{},\"distinct_nontrivial\":{},\"exhaustive\":true,\"rule\":{},\"bound\":{},\"samples\":[{}],\"violations\":[{}]}}",
+        evals, nontrivial,
+        jstr("Expression::propagate_degrees (real compiled code) to a fixpoint on each (expression shape, truth, environment); every annotated node must have upper end >= the compositional least sound bound; non-trivial = the root received a degree; cases are pairwise distinct"),
+        jstr(&format!("{} expression shapes (all node kinds over leaves Number/a/b; depth-2 wrappers Mul/Update/SwitchOp/InlineArray) x 144 sound environments (deg a, deg b in 0..3; entry absent / exact / loose)", shapes.len())),
+        samples.join(","), viol.join(","));
+}
+
 fn main() {
     std::panic::set_hook(Box::new(|_| {}));
     let args: Vec<String> = std::env::args().collect();
@@ -195,6 +315,7 @@ fn main() {
     match (args.get(1).map(|s| s.as_str()), args.get(2).map(|s| s.as_str())) {
         (Some("bounded"), Some("valueops")) => valueops(tier, seed),
         (Some("bounded"), Some("degree")) => degree(tier),
+        (Some("bounded"), Some("degree_expr")) => degree_expr(tier),
         (Some("replay-infix"), Some(f)) => {
             let a = BigInt::parse_bytes(args[3].as_bytes(), 10).unwrap();
             let b = BigInt::parse_bytes(args[4].as_bytes(), 10).unwrap();
